@@ -167,6 +167,7 @@ func (self *ProxyServerProtocol) ProcessLockResultCommandLocked(command *protoco
 			if serverProtocol, ok := defaultServerProtocol.slock.clients[self.clientId]; ok {
 				defaultServerProtocol.slock.clientsGlock.Unlock()
 				err := serverProtocol.AddProxy(self)
+				verifPoint(13)
 				if err == nil {
 					self.serverProtocol = serverProtocol
 				}
